@@ -6,7 +6,7 @@ from .prune import is_call
 
 LEVEL = 'other'
 RULES = {
-    'C05.R1': 'every FeasibleWitness is built from points that passed a containment test on the node\'s polytope; mirror_points returns only columns that passed its distance filter; the phases are fed the path polytope of the node being classified',
+    'C05.R1': 'every FeasibleWitness is built from points that passed a containment test on the node\'s polytope; mirror_points returns only columns that passed its distance filter (distances b - A·c of the normalised polytope, shifted only away from acceptance); cached points are columns of the array it returned; the phases are fed the path polytope of the node being classified',
     'C05.R2': 'who may write AffContent.state: AffContent::new (Indeterminate), infeasible_elimination (value of the phases, at the classified node), remove_axes (Indeterminate)',
     'C05.R3': 'node functions above a cached node never change silently: internal writers of .aff reach terminals only, or reset the state of every node they rewrite',
     'C05.R4': 'only a child with feasible state is forwarded past a skipped decision',
